@@ -212,7 +212,7 @@ GITIGNORE_PATTERNS = ["*.o", "*.log", "*.tmp", "build/", "tmp/", "/notes.tmp", "
                       "sub dir/", "x.py", "!main.py", "LICENSE*", "*.spdx"]
 
 
-def setup_git(rng, root, nodes):
+def setup_git(rng, root, nodes, force_sub=False):
     """Initialise a repository with .gitignore files and mixed tracking states. Returns submodule paths."""
     trees.git(root, "init", "-q")
     pats = rng.sample(GITIGNORE_PATTERNS, rng.randint(1, 5))
@@ -258,6 +258,8 @@ def setup_git(rng, root, nodes):
     trees.git(root, "commit", "-q", "-m", "init", "--allow-empty", check=False)
     submods = []
     mode = rng.choice(["none", "none", "real", "manual"])
+    if force_sub:
+        mode = "real"   # a share of the Git trees always has a submodule below subprojects/ (the two exclusions are independent)
     if mode == "real":
         src = root.parent / (root.name + "-subsrc")
         src.mkdir()
@@ -268,6 +270,8 @@ def setup_git(rng, root, nodes):
         trees.git(src, "commit", "-q", "-m", "sub")
         # a submodule may well live below subprojects/ (Meson wrap-git): the two exclusions are independent
         where = rng.choice(["ext/mod", "subprojects/libsub", "subprojects/libsub", "third party/lib", "third party/lib"])
+        if force_sub:
+            where = "subprojects/libsub"
         if os.path.lexists(root / where.split("/")[0]) and not (root / where.split("/")[0]).is_dir():
             where = "ext2/mod"
         r = trees.git(root, "submodule", "add", "-q", str(src), where, check=False)
@@ -369,7 +373,8 @@ def run_case(case, ctx):
             (root / ".idea").mkdir(exist_ok=True)
             (root / ".idea" / "workspace.xml").write_text("<x/>\n")
             res.cell("personal-ignore-file")
-        submods = setup_git(rng, root, nodes) if case["git"] else []
+        force_sub = bool(case["git"]) and case["k"] % 4 == 0
+        submods = setup_git(rng, root, nodes, force_sub) if case["git"] else []
         outer = False
         if not case["git"] and k % 4 == 1:
             # the project is a sub-directory of a larger Git work tree: ignore rules live above it, Git speaks in paths of its own
@@ -394,6 +399,9 @@ def run_case(case, ctx):
             (root / "subprojects" / "foo.wrap").write_text("[wrap]\n")
         ignored = git_ignored(root, submods) if (case["git"] or outer) else set()
         opts = {"submodules": rng.random() < 0.4, "meson": rng.random() < 0.4}
+        if force_sub:
+            # ... and is linted with exactly one of the two options
+            opts = {"submodules": case["k"] % 8 == 0, "meson": case["k"] % 8 != 0}
         covered, grey, reasons = model(nodes, str(root), ignored, submods, opts)
         gopts = ["--no-multiprocessing", "--root", str(root)]
         if opts["submodules"]:
